@@ -10,10 +10,165 @@ import (
 	"verifsim/sim"
 )
 
-type (
-	Locker = stdsync.Locker
-	Map    = stdsync.Map
-)
+type Locker = stdsync.Locker
+
+// Map stands in for sync.Map. The real one iterates in the randomised order of a Go map, which no
+// seed controls: a library whose Range misbehaves would then misbehave differently from run to run
+// and its violation would not replay. This one keeps its entries in insertion order and starts
+// Range at a tape-chosen entry; every method is a schedule point. As in the real one, Range visits
+// each key at most once, skips entries deleted before it reaches them, shows the value current at
+// the moment of the visit, and does not visit keys stored after it began. Conformance with
+// sync.Map on random operation sequences is tested in sim/conform.
+type Map struct {
+	m    map[any]*mapEntry
+	keys []any // insertion order, with tombstones (entry.deleted)
+}
+
+type mapEntry struct {
+	v       any
+	deleted bool
+}
+
+func (m *Map) get(key any) *mapEntry {
+	if m.m == nil {
+		return nil
+	}
+	return m.m[key]
+}
+
+func (m *Map) put(key, value any) {
+	if m.m == nil {
+		m.m = map[any]*mapEntry{}
+	}
+	if e := m.m[key]; e != nil {
+		e.v = value
+		return
+	}
+	m.m[key] = &mapEntry{v: value}
+	m.keys = append(m.keys, key)
+	if len(m.keys) > 64 && len(m.keys) > 4*len(m.m) {
+		live := m.keys[:0:0]
+		for _, k := range m.keys {
+			if m.m[k] != nil {
+				live = append(live, k)
+			}
+		}
+		m.keys = live
+	}
+}
+
+func (m *Map) del(key any) {
+	if e := m.get(key); e != nil {
+		e.deleted = true
+		delete(m.m, key)
+	}
+}
+
+func (m *Map) Load(key any) (value any, ok bool) {
+	sim.Pre("Map.Load")
+	if e := m.get(key); e != nil {
+		return e.v, true
+	}
+	return nil, false
+}
+
+func (m *Map) Store(key, value any) {
+	sim.Pre("Map.Store")
+	m.put(key, value)
+	sim.After("Map.Store")
+}
+
+func (m *Map) Clear() {
+	sim.Pre("Map.Clear")
+	for _, e := range m.m {
+		e.deleted = true
+	}
+	m.m, m.keys = nil, nil
+	sim.After("Map.Clear")
+}
+
+func (m *Map) LoadOrStore(key, value any) (actual any, loaded bool) {
+	sim.Pre("Map.LoadOrStore")
+	defer sim.After("Map.LoadOrStore")
+	if e := m.get(key); e != nil {
+		return e.v, true
+	}
+	m.put(key, value)
+	return value, false
+}
+
+func (m *Map) LoadAndDelete(key any) (value any, loaded bool) {
+	sim.Pre("Map.LoadAndDelete")
+	defer sim.After("Map.LoadAndDelete")
+	if e := m.get(key); e != nil {
+		v := e.v
+		m.del(key)
+		return v, true
+	}
+	return nil, false
+}
+
+func (m *Map) Delete(key any) { m.LoadAndDelete(key) }
+
+func (m *Map) Swap(key, value any) (previous any, loaded bool) {
+	sim.Pre("Map.Swap")
+	defer sim.After("Map.Swap")
+	if e := m.get(key); e != nil {
+		previous, e.v = e.v, value
+		return previous, true
+	}
+	m.put(key, value)
+	return nil, false
+}
+
+func (m *Map) CompareAndSwap(key, old, new any) (swapped bool) {
+	sim.Pre("Map.CompareAndSwap")
+	defer sim.After("Map.CompareAndSwap")
+	if e := m.get(key); e != nil && e.v == old { // (panics for incomparable values, like the real one)
+		e.v = new
+		return true
+	}
+	return false
+}
+
+func (m *Map) CompareAndDelete(key, old any) (deleted bool) {
+	sim.Pre("Map.CompareAndDelete")
+	defer sim.After("Map.CompareAndDelete")
+	if e := m.get(key); e != nil && e.v == old {
+		m.del(key)
+		return true
+	}
+	return false
+}
+
+func (m *Map) Range(f func(key, value any) bool) {
+	sim.Pre("Map.Range")
+	var keys []any
+	var entries []*mapEntry
+	seen := map[*mapEntry]bool{}
+	for _, k := range m.keys { // (a key deleted and stored again appears twice in m.keys)
+		if e := m.get(k); e != nil && !seen[e] {
+			seen[e] = true
+			keys = append(keys, k)
+			entries = append(entries, e)
+		}
+	}
+	if len(keys) == 0 {
+		return
+	}
+	start := sim.Choose(len(keys), "map-range-start")
+	for i := range keys {
+		j := (start + i) % len(keys)
+		e := entries[j]
+		if e == nil || e.deleted {
+			continue
+		}
+		if !f(keys[j], e.v) {
+			return
+		}
+		sim.Yield("Map.Range(next)")
+	}
+}
 
 // Pool stands in for sync.Pool. It belongs to one simulated run: objects put in it during an
 // earlier run (another bubble) are forgotten, because timers and channels must not cross bubbles.
